@@ -6,11 +6,14 @@ from .c01 import rand_parent, h160, collision_cases
 import impl
 
 PID = "C02"
-LEAN_MODULES = ["BtcHd.Props.C02"]
+LEAN_MODULES = ["BtcHd.Props.C02", "BtcHd.Props.RealCurve"]
 TRUSTED_BASE = common.CORE_TRUSTED + [
-    "curve group laws are explicit hypotheses (CurveLaws) of the theorems, assumed for secp256k1/python-ecdsa; "
+    "curve group laws are explicit hypotheses (GroupLaws) of the general theorems; Props/RealCurve.lean PROVES them "
+    "(and CurveLaws) for the concrete secp256k1 the driver runs (Prims/Bundle.lean: p, n prime by Pratt certificates, "
+    "the model's Jacobian arithmetic = Mathlib's group law on y^2 = x^3 + 7 over ZMod p, G of order n), so what is "
+    "trusted is that python-ecdsa computes the same functions as that model (compared on every case); "
     "the IL = 0 corner (reachable only by PRF substitution) is excluded by hypothesis and documented"]
-ASSUMPTIONS = ["python-ecdsa implements the secp256k1 group law"]
+ASSUMPTIONS = ["python-ecdsa computes the same point arithmetic and encodings as Real.Secp (differentially tested)"]
 RULE = ("parents as C01 (incl. scalars near n), neutered; normal index sequences of length 1..6 over boundaries; "
         "refusal at 2^31, 2^31+1, 2^32-1, random hardened; non-trivial = distinct case")
 NORMAL = [0, 1, 2, 2 ** 31 - 1, 2 ** 31 - 2, 2 ** 30]
